@@ -9,7 +9,9 @@ def main():
     ctx.rule = ("TLC enumerates every history of create/drop/collect/relate/domain-less query/explicit-domain query over Person "
                 "and Company (3 objects, 6 steps; thorough 7) with two live-set predictions per step: liveR (only the user's "
                 "references keep an instance alive - the property) and live (as implemented: evaluated queries pin what they "
-                "ranged over). Each history is replayed with gc disabled and the weak-reference census compared after every "
+                "ranged over). A further family has an instance that refers to another through a plain attribute "
+                "(CreateRef), a partially consumed evaluation that reaches the referred instance through that attribute, and the reset of "
+                "the reference (Detach). Each history is replayed with gc disabled and the weak-reference census compared after every "
                 "step. Histories without queries are additionally run as the body of a create/relate/discard loop (3 iterations, "
                 "two ways of ending an iteration) and the census of krrood-typed objects, graph nodes and relations must not "
                 "grow. Non-trivial = a history in which at least one instance dies; distinct by history.")
@@ -28,8 +30,16 @@ def main():
                                        6000 if thorough else 1200)
     ctx.cov["histories_in_bound_with_an_inference_and_a_death"] = total_i
     hs = hs + hs_i
+    # histories in which an instance refers to another through a plain attribute that is later reset (CreateRef / Detach) around
+    # a partially consumed evaluation that reaches the referred instance through that attribute
+    ctx.run_tlc("SymbolGraph", "SymbolGraph_mc_detach.cfg", expect="ok")
+    hs_d, total_d = sgcommon.histories(ctx, "SymbolGraph_gen_c20d.cfg",
+                                       lambda h: dies(h) and any(s["a"] == "detach" for s in h) and any(s["a"] == "queryfirst" for s in h),
+                                       3000 if thorough else 600)
+    ctx.cov["histories_in_bound_with_a_detached_reference_and_an_abandoned_evaluation"] = total_d
+    hs = hs + hs_d
     cases = [{"mode": "c14", "h": h} for h in hs]
-    loops = [h for h in hs if not any(s["a"] in ("query", "queryx", "queryfirst", "infer") for s in h)]
+    loops = [h for h in hs if not any(s["a"] in ("query", "queryx", "queryfirst", "infer", "createref", "detach") for s in h)]
     # loop bodies proper: histories of create / relate / drop / collect / sweep without queries (SymbolGraph_gen_c14.cfg)
     noq, _ = sgcommon.histories(ctx, "SymbolGraph_gen_c20l.cfg",
                                 lambda h: any(s["a"] == "relate" for s in h) and not any(s["a"] in ("query", "queryx", "queryfirst", "clear") for s in h),
